@@ -695,6 +695,30 @@ def buildEnviron (scheme : Str) (q : Request) : List (Str × EVal) :=
      ("CONTENT_LENGTH".toList, .str (natStr q.body.length))]
   q.headers.foldl (fun env kv => odSet env ("HTTP_".toList ++ upper (replaceC '-' '_' kv.1)) (.str kv.2)) base
 
+/-! ## `Valet.__init__` / `Porter.__init__`: scheme, TLS and default port of the server -/
+
+/-- the scheme decision both server constructors make.  `servant` = the caller-supplied transport if any
+(`some true` a `ServerTls`, `some false` a plain `Server`); `scheme` the `scheme=` argument (default `''`).
+A supplied servant dictates scheme and TLS, and a different scheme is refused with `ValueError`; without one
+`'https'` means TLS and everything else — also no scheme — plain http.  Result: (scheme, secured, default port). -/
+def serverScheme (servant : Option Bool) (scheme : Str) : Except Err (Str × Bool × Nat) :=
+  match servant with
+  | some true => if !scheme.isEmpty && scheme ≠ "https".toList then .error .valueError else .ok ("https".toList, true, 443)
+  | some false => if !scheme.isEmpty && scheme ≠ "http".toList then .error .valueError else .ok ("http".toList, false, 80)
+  | none => if scheme = "https".toList then .ok ("https".toList, true, 443) else .ok ("http".toList, false, 80)
+
+/-- `port = port or defaultPort` -/
+def serverPort (port : Option Nat) (defaultPort : Nat) : Nat :=
+  match port with
+  | some n => if n = 0 then defaultPort else n
+  | none => defaultPort
+
+/-- the environment a `Valet` constructed with `servant=` / `scheme=` hands to the application for a request -/
+def valetEnviron (servant : Option Bool) (scheme : Str) (q : Request) : Except Err (List (Str × EVal)) :=
+  match serverScheme servant scheme with
+  | .error e => .error e
+  | .ok (sch, _, _) => .ok (buildEnviron sch q)
+
 /-! ## `Responder` (WSGI response writer) -/
 
 structure Responder where
